@@ -48,6 +48,7 @@ type Cell struct {
 	name string
 	T    types.Type
 	glob *ssa.Global
+	site ssa.Instruction // the Alloc that created the cell (nil for parameters / captured variables of a unit)
 }
 
 type Value struct {
